@@ -142,15 +142,30 @@ func (f *multiFam) play(l *Line, out *rec) error {
 		k := i + 1
 		var ref bytes.Buffer
 		rl := zerolog.New(&ref)
-		rl.WithLevel(zerolog.Level(op.Lvl)).Int("k", k).Msg("m")
+		// levels >= 100 stand for the entry point Panic() (level op.Lvl-100 = PanicLevel): the event carries a completion
+		// callback that panics with the message AFTER the write and the error routing
+		viaPanic := op.Lvl >= 100
+		lvl := op.Lvl
+		if viaPanic {
+			lvl -= 100
+		}
+		rl.WithLevel(zerolog.Level(lvl)).Int("k", k).Msg("m")
 		r.expected = ref.Bytes()
 		r.got = [][4]int{}
 		r.outcome = op.Out
 		handled = []string{}
 		returned := false
 		func() {
-			defer func() { recover() }()
-			logger.WithLevel(zerolog.Level(op.Lvl)).Int("k", k).Msg("m")
+			defer func() {
+				if x := recover(); x != nil && viaPanic && x == "m" {
+					returned = true // Panic() ends by panicking with the message: that IS its normal completion
+				}
+			}()
+			if viaPanic {
+				logger.Panic().Int("k", k).Msg("m")
+				return // not reached: Panic() must have panicked
+			}
+			logger.WithLevel(zerolog.Level(lvl)).Int("k", k).Msg("m")
 			returned = true
 		}()
 		out.emit(map[string]interface{}{"a": "Ev", "lvl": op.Lvl, "out": op.Out, "got": r.got, "handled": handled, "returned": returned})
